@@ -142,6 +142,64 @@ def rangeDomGroup (M N : Nat) (dom weak : Nat) (i j : Nat) (w : W) : W := fun id
     let u4 : Rat := if a = 0 ∧ k = j then -corr else 0
     w idx + u1 + u2 + u3 + u4
 
+/-! ## joint unimodality: one half-space projection per (vertex, offsets) pair -/
+
+/-- one joint unimodality constraint: the constrained dimensions and the direction
+(`valley = true` for `'valley'`, `false` for `'peak'`) -/
+structure JointUni where
+  dims : List Nat
+  valley : Bool
+  deriving DecidableEq, Repr
+
+/-- coordinates of `idx` along `dims` (the position inside `_unstack_nd(weights, dims)`) -/
+def coordsOf (idx : Idx) (dims : List Nat) : List Nat := dims.map (coord idx)
+
+/-- `idx` with the coordinates along `dims` replaced by `pos` -/
+def setcs (idx : Idx) : List Nat → List Nat → Idx
+  | d :: ds, v :: vs => setcs (setc idx d v) ds vs
+  | _, _ => idx
+
+/-- the loop `for dim, offset in enumerate(offsets)` of `_project_partial_joint_unimodality`
+over the dimension positions `ts`: `none` = a neighbour with non-zero weight leaves the lattice;
+otherwise the (neighbour, coefficient) pairs in loop order -/
+def juTerms (ub center vertex : List Nat) (offsets : List Int) : List Nat → Option (List (List Nat × Int))
+  | [] => some []
+  | t :: ts =>
+    let wgt : Int := (vertex.getD t 0 : Int) - (center.getD t 0 : Int)
+    if wgt = 0 then juTerms ub center vertex offsets ts
+    else
+      let nb : Int := (vertex.getD t 0 : Int) + offsets.getD t 0
+      if nb < 0 ∨ nb ≥ (ub.getD t 0 : Int) then none
+      else (juTerms ub center vertex offsets ts).map
+        (fun rest => (vertex.set t nb.toNat, wgt * offsets.getD t 0) :: rest)
+
+/-- the hyperplane of the pair `(vertex, offsets)`: stencil positions (coordinates along the
+constrained dimensions) with their integer coefficients, the vertex itself last with minus the sum;
+`none` when `_project_partial_joint_unimodality` returns `None` -/
+def juStencil (ub vertex : List Nat) (offsets : List Int) : Option (List (List Nat × Int)) :=
+  let center := ub.map (· / 2)
+  if vertex = center then none
+  else
+    match juTerms ub center vertex offsets (List.range offsets.length) with
+    | none => none
+    | some [] => none
+    | some ts => some (ts ++ [(vertex, - (ts.map (·.2)).foldl (· + ·) 0)])
+
+/-- `_project_onto_hyperplane`: in every slice of the non-constrained dimensions the stencil values
+`v` become `v − (min(a·v, 0) [valley] | max(a·v, 0) [peak]) / (a·a) · a` -/
+def hyperplaneGroup (dims : List Nat) (valley : Bool) (st : List (List Nat × Int)) (w : W) : W := fun idx =>
+  let viol := rsum (st.map (fun pc => (pc.2 : Rat) * w (setcs idx dims pc.1)))
+  let v := if valley then min viol 0 else max viol 0
+  let factor := v / rsum (st.map (fun pc => (pc.2 : Rat) * (pc.2 : Rat)))
+  match st.lookup (coordsOf idx dims) with
+  | some a => w idx - factor * (a : Rat)
+  | none => w idx
+
+/-- `itertools.product([-1, 1], repeat=n)` -/
+def offsetsAll : Nat → List (List Int)
+  | 0 => [[]]
+  | n + 1 => [-1, 1].flatMap (fun o => (offsetsAll n).map (fun r => o :: r))
+
 /-! ## the group schedule of `project_by_dykstra` -/
 
 structure DCfg where
@@ -153,6 +211,7 @@ structure DCfg where
   monoDom : List (Nat × Nat) := []
   rangeDom : List (Nat × Nat) := []
   jointMono : List (Nat × Nat) := []
+  jointUnimod : List JointUni := []
 
 def sz (c : DCfg) (d : Nat) : Nat := c.sizes.getD d 0
 
@@ -180,11 +239,18 @@ def groups (c : DCfg) : List (W → W) :=
   let jmG : List (W → W) := c.jointMono.flatMap (fun p =>
     (tri.filter (fun g => g.1 + 1 < sz c p.1 ∧ g.2.1 + 1 < sz c p.2)).map
       (fun g => jointMonoGroup (sz c p.1) (sz c p.2) p.1 p.2 g.1 g.2.1 g.2.2))
-  monoG ++ edgeG ++ trapG ++ mdG ++ rdG ++ jmG
+  -- joint unimodality: every (vertex, offsets) pair that yields a hyperplane, in loop order
+  let juG : List (W → W) := c.jointUnimod.flatMap (fun ju =>
+    let ub := ju.dims.map (sz c)
+    (allIdx ub).flatMap (fun vertex =>
+      (offsetsAll ju.dims.length).filterMap (fun offs =>
+        (juStencil ub vertex offs).map (fun st => hyperplaneGroup ju.dims ju.valley st))))
+  monoG ++ edgeG ++ trapG ++ mdG ++ rdG ++ jmG ++ juG
 
 /-- the early-return test of `project_by_dykstra` -/
 def dykstraActive (c : DCfg) : Bool :=
-  (c.mono.any id || c.unimod.any (· != 0)) || !c.jointMono.isEmpty || !c.rangeDom.isEmpty
+  (c.mono.any id || c.unimod.any (· != 0)) || !c.jointMono.isEmpty || !c.jointUnimod.isEmpty ||
+    !c.rangeDom.isEmpty
 
 /-! ### the loop, function level (what the bookkeeping theorems talk about) -/
 
@@ -245,7 +311,7 @@ def LCfg.fin (c : LCfg) : Cfg :=
 
 /-- `num_constraint_dims > 0 or joint_monotonicities or joint_unimodalities` -/
 def constraintActive (c : LCfg) : Bool :=
-  (c.d.mono.any id || c.d.unimod.any (· != 0)) || !c.d.jointMono.isEmpty
+  (c.d.mono.any id || c.d.unimod.any (· != 0)) || !c.d.jointMono.isEmpty || !c.d.jointUnimod.isEmpty
 
 def latticeConstraintT (c : LCfg) (t : Table) : Table :=
   let t1 :=
